@@ -48,10 +48,18 @@ def _small(alpha):
 
 
 def segments(tier):
+    if tier == "clash":
+        return ["a"] + CLASH_NAMES
     return ["a", "items"] if _small(tier) else ["a", "b", "items", "get"]
 
 
+CLASH_NAMES = ["keys", "update", "pop", "clone", "values", "as_dict"]  # "items" and "get" are in the other alphabets
+
+
 def key_universe(tier):
+    if tier == "clash":
+        # every remaining method-name clash as a top-level key, below an ordinary branch and above an ordinary leaf
+        return ["a"] + CLASH_NAMES + ["a." + c for c in CLASH_NAMES] + [c + ".a" for c in CLASH_NAMES]
     segs = segments(tier)
     depth = 2 if _small(tier) else 3
     keys = []
@@ -61,7 +69,7 @@ def key_universe(tier):
 
 
 def op_keys(tier):
-    if _small(tier):
+    if _small(tier) or tier == "clash":
         return key_universe(tier)
     # thorough: all keys of depth <= 2 over 4 segments plus the depth-3 keys over the two quick segments
     segs = segments(tier)
@@ -706,7 +714,12 @@ def bfs(ctx, tier, max_depth, state_cap, totals):
 def explore(ctx):
     # quick: small alphabet (2 segments incl. a method-name clash, key depth 2), all histories of length <= 3.
     # thorough: the same alphabet one step deeper, plus the large alphabet (4 segments, key depth 3) to depth 2.
-    plan = [("small", 3, 10**9)] if ctx.quick else [("small", 4, 10**9), ("large", 2, 10**9)]
+    # both: the "clash" alphabet (all other method-name clashes of the statement at 19 key positions) to depth 2.
+    plan = (
+        [("small", 3, 10**9), ("clash", 2, 10**9)]
+        if ctx.quick
+        else [("small", 4, 10**9), ("large", 2, 10**9), ("clash", 2, 10**9)]
+    )
     totals = {"states": 0, "transitions": 0, "nontrivial": 0, "max_history": 0, "runs": []}
     caps = []
     for alpha, depth, cap in plan:
